@@ -273,7 +273,7 @@ def build_value(d):
 
 
 # every kind of original error: the message must render and end the text
-N_MESSAGE = 24 + 5 * 4 * 3 + 1 + 5 + 5 + 5
+N_MESSAGE = 24 + 5 * 4 * 3 + 1 + 5 + 5 + 5 + 5
 
 
 def message_cases():
@@ -315,7 +315,7 @@ def message_cases():
         # a callable that runs a nested glom, logs (stringifies) its error and lets it propagate
         ('nested-logged', {'a': {'x': {}}}, ('a', _logging_nested)),
         ('nested-plain', {'a': {'x': {}}}, ('a', _plain_nested)),
-    ] + guard_cases() + note_cases() + depth_cases() + recovered_cases()
+    ] + guard_cases() + note_cases() + depth_cases() + recovered_cases() + falsy_cases()
 
 
 def _refuse_all(x):
@@ -337,6 +337,30 @@ def recovered_cases():
          leak + ["Spec: 'yy'"]),
         ('recovered:nested', {'a': 1}, Check(Check(Coalesce('zz', default_factory=int), validate=_accept), validate=_refuse_all), ['CheckError'], leak),
         ('recovered:control', {'a': 1}, Check(Coalesce('zz', default=0), validate=_refuse_all), ['CheckError'], leak),
+    ]
+
+
+def _falsy_raiser(cls_name, text):
+    def fail(t):
+        import exccat
+        raise exccat.cls(cls_name)(text)
+    fail.__name__ = 'fails_falsy'
+    return fail
+
+
+def falsy_cases():
+    """the error that ended an abandoned branch is a FALSY object (an aggregate error with __len__ 0 / __bool__ False): it is still
+    the error that ended the branch, and is shown"""
+    from glom import Coalesce, Or, Switch, T, Val
+    t = {'a': 1}
+    return [
+        ('falsy:coalesce', t, Coalesce(_falsy_raiser('GFalsy', 'first: nothing usable'), 'zz'), ['GFalsy: first: nothing usable']),
+        ('falsy:coalesce-skip-exc', t, Coalesce(_falsy_raiser('UFalsy', 'first: empty batch'), 'zz', skip_exc=(Exception,)),
+         ['UFalsy: first: empty batch']),
+        ('falsy:or', t, Or(_falsy_raiser('GFalsy', 'first: schema mismatch'), 'zz'), ['GFalsy: first: schema mismatch']),
+        ('falsy:switch', t, Switch([(_falsy_raiser('GFalsy', 'case 1: mismatch'), Val(1)), (T['zz'], Val(2))]), ['GFalsy: case 1: mismatch']),
+        ('falsy:nested', t, ('a', Coalesce((T, _falsy_raiser('GFalsy', 'inner one')), (T, _falsy_raiser('GFalsy', 'inner two')))),
+         ['GFalsy: inner one', 'GFalsy: inner two']),
     ]
 
 
